@@ -17,10 +17,13 @@ Rounding bounds (stated, not tuned).  eps = 2^-52.
   itself (0 for arrays; 16 sum_k(p_k+1) eps max|c| for a spline; (deg+terms+2+32 d deg) eps S
   for a polynomial with S = sum|coef| Xmax^deg).
 * project_L2: r = b - M x with the oracle's b, M:
-      ||r||_2 <= tau (||b||_2 + ||M||_2 ||x||_2),  tau = 1e-12 + (1000 + 64 N) eps
+      ||r||_2 <= tau (||b|abs||_2 + ||M||_2 ||x||_2),  tau = 1e-12 + (1000 + 64 N) eps
+  with b|abs_i = sum_q w_q |f|(q) phi_i(q), |f| = the sum of the absolute terms of f: the magnitude of the
+  computation that produces b (b itself may vanish by symmetry or cancellation while its rounding errors
+  do not), and ||x - c||_2 <= tau cond_2(M) (||c||_2 + ||b|abs||_2 / ||M||_2) for functions of the space
   (1e-12 = the relative CG tolerance of approx.py:92, 1000 eps = drift of the recursive CG
   residual over <= 100 iterations, 64 N eps = direct solves and the two independent
-  assemblies), and for functions of the space ||x - c||_2 <= tau cond_2(M) ||c||_2.
+  assemblies).
 """
 import math
 import os
@@ -669,7 +672,7 @@ def gauss_grid(kvs, nqp):
 
 
 def l2_oracle(kvs, ps, trailing, data, geo, f_physical, r, P=None, dense=None):
-    """returns (M, b [N x T], fvals-derived c or None)"""
+    """returns (M or matvec, b [N x T], ||M||_inf for the matrix-free form else None, babs [N x T])"""
     d = len(kvs)
     nqp = max(ps) + 1
     grid, wts = gauss_grid(kvs, nqp)
@@ -687,10 +690,12 @@ def l2_oracle(kvs, ps, trailing, data, geo, f_physical, r, P=None, dense=None):
     if data['kind'] == 'space':
         c = np.array([float(cnum(x)) for x in data['coeffs']]).reshape(N + [T])
         F = kron_apply(Cq, c)
+        Fabs = kron_apply(Cq, np.abs(c))             # sum of the absolute terms of the evaluation
     elif data['kind'] == 'hspace':
         u = np.array([float.fromhex(h) for h in r['u']])
         c = (P @ u).reshape(N + [1])
         F = kron_apply(Cq, c)
+        Fabs = kron_apply(Cq, (np.abs(P) @ np.abs(u)).reshape(N + [1]))
     else:
         mesh = np.meshgrid(*grid, indexing='ij')
         if f_physical:
@@ -699,16 +704,24 @@ def l2_oracle(kvs, ps, trailing, data, geo, f_physical, r, P=None, dense=None):
         else:
             X = mesh[::-1]
         F = np.zeros(qshape + [T])
+        Fabs = np.zeros(qshape + [T])
         for t in range(T):
             v = np.zeros(qshape)
+            va = np.zeros(qshape)
             for cf, es in data['comps'][t]:
                 term = float(cnum(cf)) * np.ones(qshape)
                 for x, e in zip(X, es):
                     term = term * x ** e
                 v = v + term
+                va = va + np.abs(term)
             F[..., t] = v
+            Fabs[..., t] = va
     Ct = [C.T for C in Cq]
     b = kron_apply(Ct, F * W[..., None]).reshape(prod(N), T)
+    # the magnitude of the computation that produces b: sum_q w_q |f|(q) phi_i(q) with |f| the sum of the
+    # absolute terms of f (basis values are non-negative).  Rounding errors of b -- in the implementation
+    # and in this oracle -- are relative to THIS, not to |b|, which may vanish by symmetry/cancellation.
+    babs = kron_apply(Ct, Fabs * W[..., None]).reshape(prod(N), T)
 
     def matvec(x):
         # M x = C^T (W .* (C x)),  M_ij = sum_q w_q phi_i(q) phi_j(q), without forming M
@@ -716,12 +729,12 @@ def l2_oracle(kvs, ps, trailing, data, geo, f_physical, r, P=None, dense=None):
         return kron_apply(Ct, kron_apply(Cq, X) * W[..., None]).reshape(prod(N), -1)
     if dense is False or (dense is None and prod(N) > 700):
         # entries of M are non-negative: ||M||_2 <= ||M||_inf = max_i (M 1)_i
-        return matvec, b, float(np.max(matvec(np.ones(prod(N)))))
+        return matvec, b, float(np.max(matvec(np.ones(prod(N))))), babs
     Cfull = Cq[0]
     for C in Cq[1:]:
         Cfull = np.kron(Cfull, C)
     M = Cfull.T @ (W.ravel()[:, None] * Cfull)
-    return M, b, None
+    return M, b, None, babs
 
 
 def tau(N):
@@ -747,7 +760,7 @@ def check_l2_on_impl(case, r):
     Ns = [len(kv) - p - 1 for kv, p in zip(kvs, ps)]
     if r['shape'] != Ns + trailing:
         return [('shape', 'result has shape %s, expected %s' % (r['shape'], Ns + trailing))], {}
-    M, b, nMinf = l2_oracle(kvs, ps, trailing, case['data'], geo, bool(case.get('f_physical')), r)
+    M, b, nMinf, babs = l2_oracle(kvs, ps, trailing, case['data'], geo, bool(case.get('f_physical')), r)
     N = b.shape[0]
     x = np.array([float.fromhex(h) for h in r['x']]).reshape(N, -1)
     t = tau(N)
@@ -761,7 +774,7 @@ def check_l2_on_impl(case, r):
     worst = 0.0
     for k in range(x.shape[1]):
         res = np.linalg.norm(b[:, k] - Mx[:, k])
-        lim = t * (np.linalg.norm(b[:, k]) + nM * np.linalg.norm(x[:, k]))
+        lim = t * (np.linalg.norm(babs[:, k]) + nM * np.linalg.norm(x[:, k]))
         if lim > 0:
             worst = max(worst, res / lim)
         if not (res <= lim):
@@ -783,17 +796,18 @@ def check_l2_on_impl(case, r):
         cond = np.linalg.cond(M)
         for k in range(x.shape[1]):
             e = np.linalg.norm(x[:, k] - c[:, k])
-            lim = t * cond * np.linalg.norm(c[:, k])
+            # x - c = M^-1 (errors of b and of the solve), both bounded by t (babs + |M||c|)
+            lim = t * cond * (np.linalg.norm(c[:, k]) + np.linalg.norm(babs[:, k]) / nM)
             if not (e <= lim):
                 bad.append(('not-reproduced', 'L2 projection of a function of the space is off by %.3g (bound %.3g, cond %.3g)' % (e, lim, cond)))
                 break
     if 'x_1d' in r:
         x1 = np.array([float.fromhex(h) for h in r['x_1d']])
         lv = np.array([float.fromhex(h) for h in r['lv_1d']])
-        if np.linalg.norm(lv - b[:, 0]) > 64 * N * FEPS * (np.linalg.norm(b[:, 0]) + nM * np.linalg.norm(x[:, 0])):
+        if np.linalg.norm(lv - b[:, 0]) > 64 * N * FEPS * (np.linalg.norm(babs[:, 0]) + nM * np.linalg.norm(x[:, 0])):
             bad.append(('load-vector-1d', 'bspline.load_vector differs from the quadrature inner products'))
         res = np.linalg.norm(b[:, 0] - (M @ x1 if nMinf is None else M(x1)[:, 0]))
-        if res > t * (np.linalg.norm(b[:, 0]) + nM * np.linalg.norm(x1)):
+        if res > t * (np.linalg.norm(babs[:, 0]) + nM * np.linalg.norm(x1)):
             bad.append(('project-1d', 'bspline.project_L2 residual not orthogonal: %.3g' % res))
     return bad, info
 
@@ -808,21 +822,22 @@ def check_hspace_on_impl(case, r):
     fine = [[float.fromhex(h) for h in k['kv']] for k in r['fine_kvs']]
     ps = [k['p'] for k in r['fine_kvs']]
     P = np.array([float.fromhex(h) for h in r['P']]).reshape(r['P_shape'])
-    Mf, bf, _ = l2_oracle(fine, ps, [], case['data'], case.get('geo'), bool(case.get('f_physical')), r, P=P, dense=True)
+    Mf, bf, _, bfabs = l2_oracle(fine, ps, [], case['data'], case.get('geo'), bool(case.get('f_physical')), r, P=P, dense=True)
     M = P.T @ Mf @ P
     b = P.T @ bf[:, 0]
+    nbabs = np.linalg.norm(np.abs(P).T @ bfabs[:, 0])        # magnitude of the computation of b (see l2_oracle)
     x = np.array([float.fromhex(h) for h in r['x']])
     N = len(x)
     t = tau(Mf.shape[0])
     nM = np.linalg.norm(M, 2)
     res = np.linalg.norm(b - M @ x)
-    lim = t * (np.linalg.norm(b) + nM * np.linalg.norm(x))
+    lim = t * (nbabs + nM * np.linalg.norm(x))
     # attribution: the implementation's own mass matrix and load vector
     Mi = np.array([float.fromhex(h) for h in r['M_impl']]).reshape(N, N)
     bi = np.array([float.fromhex(h) for h in r['b_impl']])
     mass_ok = np.linalg.norm(Mi - M, 2) <= t * nM
-    solve_ok = np.linalg.norm(bi - Mi @ x) <= t * (np.linalg.norm(bi) + nM * np.linalg.norm(x))
-    load_ok = np.linalg.norm(bi - b) <= t * (np.linalg.norm(b) + nM * np.linalg.norm(x))
+    solve_ok = np.linalg.norm(bi - Mi @ x) <= t * (nbabs + nM * np.linalg.norm(x))
+    load_ok = np.linalg.norm(bi - b) <= t * (nbabs + nM * np.linalg.norm(x))
     own_level = mass_ok and solve_ok and not load_ok
     if not (res <= lim):
         if own_level:
@@ -836,7 +851,7 @@ def check_hspace_on_impl(case, r):
     if case['data']['kind'] == 'hspace' and not bad:
         u = np.array([float.fromhex(h) for h in r['u']])
         e = np.linalg.norm(x - u)
-        lim = t * np.linalg.cond(M) * np.linalg.norm(u)
+        lim = t * np.linalg.cond(M) * (np.linalg.norm(u) + nbabs / nM)
         if not (e <= lim):
             bad.append(('not-reproduced', 'hierarchical L2 projection of a function of the space is off by %.3g (bound %.3g)' % (e, lim)))
     return bad, {'numdofs': r['numdofs'], 'levels': r['numlevels']}
@@ -992,6 +1007,64 @@ def gen_l2_cases(ctx, n):
         else:
             case['data'] = {'kind': 'space', 'coeffs': [[rng.randint(-64, 64), 8] for _ in range(prod(N))],
                             'route': 'callable' if dk == 'space-callable' else 'bsplinefunc'}
+        cases.append(case)
+    # data whose load vector vanishes although its terms do not (every run): one direction carries a single
+    # basis function (degree 0, one span symmetric about 0) and the data are odd in that variable, so every
+    # inner product is 0 up to rounding; components that are identically zero; with and without geometry,
+    # scalar / vector / matrix valued, polynomial and spline data.  The bounds are relative to the magnitude
+    # of the computation (sum of |w f phi|), not to |b|.
+    for zi in range(12 if thorough else 6):
+        d = 3 if zi % 2 == 0 else 2
+        ax = rng.randrange(d)                                   # the direction with the single function
+        sp = []
+        for k in range(d):
+            if k == ax:
+                h = Fraction(rng.choice([1, 2, 4]), 2)
+                sp.append(([-h, h], 0))
+            else:
+                pk = rng.randint(1, 3 if d == 2 else 2)
+                sp.append((gen_kv(rng, pk, rng.random() < 0.5, 6 if d == 2 else 4), pk))
+        N = [len(kv) - pk - 1 for kv, pk in sp]
+        var = d - 1 - ax                                        # its variable in x, y, z order
+        trailing = [[], [3], [2, 2], [], [2], [3]][zi % 6]
+        T = prod(trailing)
+
+        def odd_poly():
+            P = []
+            for _t in range(rng.randint(1, 3)):
+                es = [rng.randint(0, 2) for _ in range(d)]
+                es[var] = rng.choice([1, 3])
+                P.append([rng.randint(-4, 4) or 1, es])
+            return P
+        kind = ['poly', 'poly', 'poly-geo', 'space-zero', 'poly', 'poly-geo'][zi % 6]
+        case = {'op': 'l2', 'kvs': [kvspec(kv, pk) for kv, pk in sp], 'trailing': trailing, 'geo': None, 'bare_kv': False,
+                'gk': 'none', 'dk': 'poly', 'f_physical': False}
+        if kind == 'space-zero':
+            # a spline whose coefficients vanish identically (scalar case) or in some components
+            coeffs = []
+            for _i in range(prod(N)):
+                for t in range(T):
+                    coeffs.append([0, 1] if (T == 1 or t % 2 == 0) else [rng.randint(-64, 64), 8])
+            case['data'] = {'kind': 'space', 'coeffs': coeffs, 'route': 'bsplinefunc'}
+            case['dk'] = 'space'
+        else:
+            comps = []
+            for t in range(T):
+                if T > 1 and t == 1:
+                    comps.append([[0, [0] * d]])               # an identically zero component
+                elif T > 1 and t == 2:
+                    comps.append(gen_poly(rng, d, 3, 1)[0])     # a generic one next to them
+                else:
+                    comps.append(odd_poly())
+            case['data'] = {'kind': 'poly', 'comps': comps, 'style': 'tuple' if zi % 2 else 'array'}
+            if kind == 'poly-geo':
+                # diagonal affine geometry: the pull-back stays odd, the projection goes through CG
+                case['geo'] = {'kind': 'affine', 'A': [[[rng.randint(1, 6) if i == j else 0, 2] for j in range(d)] for i in range(d)],
+                               'b': [[0, 1] for _ in range(d)]}
+                case['gk'] = 'affine'
+                case['trailing'] = []
+                case['data']['comps'] = comps[:1]
+        case['gk'] += ':zero-load'
         cases.append(case)
     # geometries that stress the solver of the geometry-weighted projection:
     # (a) small physical domains (|det J| tiny), (b) strongly varying |det J| on a larger space
